@@ -23,7 +23,7 @@ INT_VALS = [0, -1, 1, 42, 2147483647, -2147483648]
 LONG_VALS = [0, -7, 5000000000, -5000000000, 9223372036854775807]
 STR_VALS = ["", "a", "0", "hi there", "x_y"]
 MODES = ["local", "copyinit", "assign_var", "assign_ctor", "param_var", "param_ctor", "return_init", "return_direct",
-         "return_param", "loop_break", "loop_continue", "fn_return"]
+         "return_param", "loop_break", "loop_continue", "fn_return", "gfn_explicit", "gfn_inferred"]
 # the last three leave the matching arm by break / continue / return: exactly one arm runs and control goes where the statement says
 
 
@@ -124,6 +124,10 @@ def render_match(sh, v, payload, arms, mode, other):
     elif mode == "fn_return":
         pre += "int pick(%s x) {\n%s    println(\"fell\");\n    return -1;\n}\n" % (T, match_src(sh, "x", arms, "    ", "return 10 + %d;"))
         body = "    %s t = %s;\n    int rr = pick(t);\n    println(\"r\", rr);\n" % (T, c)
+    elif mode in ("gfn_explicit", "gfn_inferred"):
+        # the match stands in a GENERIC function (instantiated with an explicit type argument / an inferred one)
+        pre += "int gpick<T>(%s x, T d) {\n%s    println(\"fell\");\n    return d;\n}\n" % (T, match_src(sh, "x", arms, "    ", "return 10 + %d;"))
+        body = "    %s t = %s;\n    int rr = gpick%s(t, -1);\n    println(\"r\", rr);\n" % (T, c, "<int>" if mode == "gfn_explicit" else "")
     return pre + "int main() {\n" + body + "    println(\"END\");\n    return 0;\n}\n"
 
 
@@ -154,7 +158,7 @@ def expected_match(arm, sh, arms, v, payload, mode="local"):
         return line + "n 1\nEND\n", "ok"
     if mode == "loop_continue":
         return line * 3 + "n 3\nEND\n", "ok"
-    if mode == "fn_return":
+    if mode in ("fn_return", "gfn_explicit", "gfn_inferred"):
         return line + "r %d\nEND\n" % (10 + i), "ok"
     return line + "END\n", "ok"
 
@@ -508,7 +512,7 @@ def main(a):
         if k % 97 == 0 and len(samples) < 4:
             samples.append({"suite": "match", "mode": mode, "arms": [str(x) for x in arms], "expected": exp[:60]})
         if cls == "error":
-            bad = o[1] != "error" or o[0] != "" if mode not in ("loop_break", "loop_continue", "fn_return") else o[1] != "error"
+            bad = o[1] != "error" or o[0] != "" if mode not in ("loop_break", "loop_continue", "fn_return", "gfn_explicit", "gfn_inferred") else o[1] != "error"
         else:
             bad = o[0] != exp or o[1] != cls
         if bad:
